@@ -13,6 +13,12 @@ A path that loops while moving the cursor without emitting a step is reported wi
   INIT   RegexSearcher::new starts un-exhausted at the haystack's ends: `current_pos` = 0, `reverse_pos` =
          haystack.len(), `done` = `reverse_done` = false (constants): the first step starts at the edge of the haystack
          for every haystack, the empty one included (`"".find(&re)` must see the empty match at 0).
+  DONE   on a path that reports a non-empty match the exhaustion flag (`done` / `reverse_done`) is left alone: after a
+         non-empty match that ends at the end of the haystack one more (empty) match is still due there, as find_iter
+         reports it.
+  LASTB  find_last_match_before(pos) selects matches by their END against the cursor, inclusively (`m.end() <= pos`, i.e.
+         never `pos < end` taken): a test on `m.start()` or a strict test drops the empty match that sits exactly at the
+         cursor (`"abc".rfind(/$/)`).
   BOUND  a loop in the searcher that walks a byte offset by +-1 (to leave the inside of a UTF-8 sequence) tests
          `haystack.is_char_boundary(x)` on the very offset `x` it steps: testing another variable never moves (or never
          stops) the walk and the stored cursor / emitted bound lands inside a character.
@@ -80,6 +86,11 @@ def check(facts):
                 problems.setdefault(kind, []).append("after %s(.., %s) the cursor is %s" % (variant, symex.show(edge_out)[:60], symex.show(final)[:80]))
             else:
                 okc += 1
+            # DONE
+            flag = "done" if direction == "forward" else "reverse_done"
+            if variant == "Match" and not empty and (1, flag) in p.cells and symex.show(p.cells[(1, flag)]) not in ("self.%s" % flag, "0", "false"):
+                problems.setdefault("done", []).append("a non-empty Match(%s, %s) path sets %s = %s" % (
+                    symex.show(a)[:40], symex.show(bnd)[:40], flag, symex.show(p.cells[(1, flag)])[:20]))
             # WHOLE
             src = symex.show(a) + symex.show(bnd)
             if variant == "Match":
@@ -95,6 +106,8 @@ def check(facts):
                     "end": "the cursor does not end where the emitted step ended: steps overlap or leave gaps",
                     "start": "a step does not start at the cursor: steps overlap or leave gaps",
                     "whole": "the regex is not run on the whole haystack from the cursor",
+                    "done": "the searcher declares itself exhausted after a non-empty match: the empty match still due at the end of the "
+                            "haystack (find_iter reports it) is never emitted",
                     "cursor loop": "the cursor is moved in a loop without emitting a step"}[kind]
             r.fail(key, "%s (%s)" % (text, "; ".join(sorted(set(msgs))[:2])), facts.loc(fn))
         if okc:
@@ -136,6 +149,64 @@ def check(facts):
             r.ok(key, "current_pos=0, reverse_pos=len, not done")
             r.sample({"function": fn, "fields": sorted(vals)})
 
+    # ROUND: stepping off a UTF-8 interior rounds in the direction of travel
+    nround = 0
+    for fn in [n for n in facts.body_names() if "pattern_impl" in n]:
+        b = facts.body(fn)
+        forward = fn.endswith("::next")
+        backward = fn.endswith("::next_back")
+        for bb, t in b.iter_calls():
+            last = (t.get("callee") or "").split("::")[-1]
+            if last in ("floor_char_boundary", "ceil_char_boundary") and (forward or backward):
+                key = "%s rounds %s" % (fn, last)
+                wrong = (forward and last == "floor_char_boundary") or (backward and last == "ceil_char_boundary")
+                if wrong:
+                    r.fail(key, "%s in the %s searcher (line %s) rounds against the direction of travel: after an empty match in front of a "
+                                "multi-byte character the cursor comes back to where it was and the same match is reported forever" % (
+                                    last, "forward" if forward else "reverse", t.get("line")), facts.loc(fn, t.get("line")))
+                else:
+                    r.ok(key)
+                    nround += 1
+    # LASTB
+    lb = [n for n in facts.body_names() if "pattern_impl" in n and "find_last_match_before" in n]
+    if not lb:
+        r.error("find_last_match_before not found in the pattern configuration")
+    ncmp = 0
+    for fn in sorted(lb):
+        b = facts.body(fn)
+
+        def from_call(op, name, depth=0):
+            if op.get("k") not in ("copy", "move") or depth > 6:
+                return False
+            d = b.single_def(b.root_of(op["pl"]["l"])[0])
+            if d and d[2] == "call":
+                return (d[3].get("callee") or "").endswith(name)
+            if d and d[2] == "assign" and d[3]["rv"]["k"] in ("use", "cast"):
+                return from_call(d[3]["rv"]["op"], name, depth + 1)
+            return False
+        for bi, i, st in b.iter_stmts():
+            if st["k"] != "assign" or st["rv"]["k"] != "bin" or st["rv"]["op"] not in ("Lt", "Le", "Gt", "Ge", "Eq", "Ne"):
+                continue
+            a_, b_ = st["rv"]["a"], st["rv"]["b"]
+            if not any(from_call(x, "Match::start") or from_call(x, "Match::end") for x in (a_, b_)):
+                continue
+            ncmp += 1
+            key = "%s match selection #%d" % (re.sub(r"::\{closure#\d+\}", "", fn), ncmp)
+            op = st["rv"]["op"]
+            uses_start = from_call(a_, "Match::start") or from_call(b_, "Match::start")
+            end_left = from_call(a_, "Match::end")
+            inclusive = (op == "Le" and end_left) or (op == "Ge" and not end_left) or (op == "Gt" and end_left) or (op == "Lt" and not end_left)
+            # `end <= pos` keep / `end > pos` stop are the same canonical test (`pos < end`)
+            if uses_start:
+                r.fail(key, "find_last_match_before filters matches by their start (line %s): an empty match exactly at the cursor has start == "
+                            "pos and is dropped, so rfind / ends_with / rsplit miss it" % st["line"], facts.loc(fn, st["line"]))
+            elif not inclusive:
+                r.fail(key, "find_last_match_before compares the match end with the cursor strictly (line %s): a match ending exactly at the "
+                            "cursor is dropped" % st["line"], facts.loc(fn, st["line"]))
+            else:
+                r.ok(key, "selects by `end <= pos`")
+    r.floor("last_before_selections", ncmp, 1)
+
     # BOUND
     from .lbseq import natural_loops
     nwalk = 0
@@ -174,7 +245,7 @@ def check(facts):
                     r.fail(key, "the loop steps `%s` by one but tests is_char_boundary on %s: the walk does not stop on a character boundary of "
                                 "`%s`, so a cursor / step bound inside a UTF-8 sequence is stored" % (
                                     b.local_name(l), other or "nothing", b.local_name(l)), facts.loc(fn, b.blocks[h]["t"].get("line")))
-    r.floor("boundary_walks", nwalk, 2)
+    r.floor("boundary_walks", nwalk + nround, 2)
 
     # WHOLE (MIR): search entry points used by the searcher
     for fn in [n for n in facts.body_names() if "pattern_impl" in n]:
